@@ -225,3 +225,7 @@ func (b *Budget) Timeout() time.Duration {
 }
 
 func (b *Budget) Spent() { atomic.AddInt64(&b.left, -1) }
+
+// Exhausted: so many waits timed out that going on only costs time (the tree is broken and the
+// anomalies seen so far are reported); the remaining cases are skipped.
+func (b *Budget) Exhausted() bool { return atomic.LoadInt64(&b.left) < -100 }
